@@ -10,7 +10,7 @@ Definition mkacct (d : default_rule) (p : list (res * pref)) (au : list badge) (
 
 (* the resource / badge pools of the harness *)
 Definition pool_res : list N := [0; 1; 2; 3; 4; 5]%N.
-Definition pool_badge : list N := [0; 1; 2]%N.
+Definition pool_badge : list N := [0; 1; 2; 3; 4]%N.
 
 Definition default_eqb (a b : default_rule) : bool :=
   match a, b with Accept, Accept | Reject, Reject | AllowExisting, AllowExisting => true | _, _ => false end.
